@@ -109,13 +109,13 @@ def run_w1(res, task):
     res.samples.append({'kind': 'w1', 'gate': kind, 'waves': [[0, [1.0, 2.0]]] * a, 'delays': ['i'] * a, 'cap': 8})
 
 
-def simulate(b, nl, plan, caps, stim, shift=0.0, scale=1.0, reuse=False):
+def simulate(b, nl, plan, caps, stim, shift=0.0, scale=1.0, reuse=False, sim=None):
     c = b.circuit
     ipos, opos, spos = b.s_pos()
     nv = nl.n_in + len(nl.states)
     n, init, tt, fin = W.stim_for(nv)
     delays = wsim.delay_array(len(c.lines), plan) * scale
-    sim = W.make_sim(c, delays, n, caps=caps, reuse=reuse)
+    if sim is None: sim = W.make_sim(c, delays, n, caps=caps, reuse=reuse)      # else: the given simulator object runs again
     tt2 = [(t + np.float32(shift)) * np.float32(scale) for t in tt]
     W.assign(sim, ipos + spos, init, tt2, fin)
     sim.s_to_c()
@@ -200,13 +200,16 @@ def w2_case(res, case, tier):
     c0 = np.array(sim.c, dtype=np.float64)
     finite = np.abs(c0) < 2.0 ** 100
     ntrans = int(finite.sum())
-    for d in (shifts(tier) if tier == 'thorough' else shifts(tier)[case.get('rot', 0) % 2:][:1]):
-        sim2, _, _ = simulate(b, nl, case['plan'], case['caps'], case['stim'], shift=d)
+    ovl0 = np.array(sim.s[10], copy=True)
+    for di, d in enumerate(shifts(tier) if tier == 'thorough' else shifts(tier)[case.get('rot', 0) % 2:][:1]):
+        # the first shifted run re-uses the simulator object of the unshifted run (shifting the inputs of an object shifts its waveforms)
+        sim2, _, _ = simulate(b, nl, case['plan'], case['caps'], case['stim'], shift=d, sim=sim if di == 0 else None)
+        if di == 0: res.count('w2_shift_on_same_object')
         exp = np.where(finite, c0 + d, c0)
         if not np.array_equal(np.array(sim2.c, dtype=np.float64), exp):
             bad = np.argwhere(np.array(sim2.c, dtype=np.float64) != exp)[0]
             res.violation(key + f'/shift{d}', case, f'inputs shifted by {d}: memory cell {bad.tolist()} is {sim2.c[tuple(bad)]} expected {exp[tuple(bad)]} {nl}')
-        if not np.array_equal(sim2.s[10], sim.s[10]): res.violation(key + f'/shift{d}-ovl', case, 'overflow flags changed under shift')
+        if not np.array_equal(sim2.s[10], ovl0): res.violation(key + f'/shift{d}-ovl', case, 'overflow flags changed under shift')
     for s in (scales(tier) if tier == 'thorough' else scales(tier)[case.get('rot', 0) % 2:][:1]):
         sim2, _, _ = simulate(b, nl, case['plan'], case['caps'], case['stim'], scale=s)
         exp = np.where(finite, c0 * s, c0)
@@ -248,7 +251,7 @@ def replay(case):
 
 
 def finish(agg, tier):
-    need = ['w1_overflows', 'w1_monotonic_checked', 'w2_monotonic_checked', 'w2_cases', 'w2_reuse_runs']
+    need = ['w1_overflows', 'w1_monotonic_checked', 'w2_monotonic_checked', 'w2_cases', 'w2_reuse_runs', 'w2_shift_on_same_object']
     missing = [k for k in need if not agg.counters.get(k)]
     if missing: raise common.HarnessError(f'vacuity guard: {missing} zero')
     return {}
